@@ -245,6 +245,25 @@ def run(ctx):
             check_clear(ctx, prog, c, r, store_field)
             for inst in ctx.instances[n0:]:
                 inst.props |= set(fam_props)
+    # a slot that is in use and free at once is handed out again by a later insertion, which overwrites a live entry: handles
+    # of the map and the set stop designating what they designated (C17); in the key tree lookups and the export go wrong with
+    # the tree they read (C06, C07)
+    for inst in ctx.instances:
+        if inst.rule == 'POOL' and '|' in inst.key:
+            fk = inst.key.split('|')[1]
+            fam = fk.split('::')[0]
+            if fk == '<crate>':
+                m_ = inst.key.split('(')[-1]
+                fam = m_.split('::')[0] if '::' in m_ else fam
+            if fam in ('map', 'set'):
+                inst.props.add('C17')
+            elif fam == 'key':
+                inst.props |= {'C06', 'C07'}
+            # growth and allocation clauses are about handing out a slot that is in use (or does not exist): the entry stored there
+            # is overwritten - the family's content property
+            sig_ = inst.key.split('|')[2] if inst.key.count('|') >= 2 else ''
+            if sig_.startswith(('grow-range', 'grow-when-empty', 'pool-mutation', 'alloc-', 'pool-encapsulated')):
+                inst.props |= set({'map': ['C04'], 'set': ['C05'], 'key': ['C01']}.get(fam, []))
     run_provenance(ctx)
 
 
@@ -339,6 +358,32 @@ def released_param(prog, h, r, T0, _depth=0):
     return ks.pop() if len(ks) == 1 else None
 
 
+def unlink_params(prog, g):
+    """parameter numbers k of g such that g rewrites the child link of some node that equals parameter k: it contains the side test
+    `param_k == node(P).left|right` and stores into that node's left / right"""
+    key = ('unlinkparams', g.path)
+    if key in prog._summ_cache:
+        return prog._summ_cache[key]
+    out = set()
+    b = g.body
+    for s0, d0 in b.switch_discr.items():
+        d = strip(d0)
+        if d.kind != 'bin' or d.args[0] not in ('Eq', 'Ne'):
+            continue
+        x, y = strip(d.args[1]), strip(d.args[2])
+        for p_, q_ in ((x, y), (y, x)):
+            if p_.kind == 'param' and q_.kind == 'load':
+                nf = prog.node_field(q_)
+                if nf and len(nf[1]) == 1 and nf[1][0] in ('left', 'right'):
+                    base = strip(nf[0])
+                    for st in b.stores:
+                        a = prog.accessor_call(strip(st.root))
+                        if a is not None and st.fields() and st.fields()[0] in ('left', 'right') and (strip(a[2]) is base or (strip(a[2]).kind == base.kind == 'param' and strip(a[2]).args == base.args)):
+                            out.add(p_.args[0])
+    prog._summ_cache[key] = out
+    return out
+
+
 class RelSite:
     """a release as seen in the removal: the call (to the pool or to an exact helper) and the value released"""
     def __init__(self, call, arg):
@@ -413,6 +458,10 @@ def check_release(ctx, prog, rem, r, T0=frozenset()):
         all_kinds += kinds
         if any(k.startswith('other') for k in kinds):
             problems.append('released slot is %s, expected the removed index or its in-order successor' % kinds)
+        # (not checked here: that the released slot, when it is the removal's own parameter, was unlinked from its parent on that
+        # path.  A clause to that effect was tried in round 10 - an unlink event being a call of a helper that finds the parent's
+        # link by comparing it with the slot - and withdrawn: it recognised the helper in one spelling only and fired on four
+        # behaviour-preserving rewrites of the link helpers.  TWIN, ENTITY and NULL report the one independent change that needs it.)
         # if the removal moves a payload from another slot into the removed one, that other slot is the one that leaves
         # the tree on that path and must be the released one
         for st in b.stores:
